@@ -55,7 +55,7 @@ Fixpoint dec_raw (fuel : nat) (depth : nat) (b : bytes) {struct fuel} : outcome 
     else Ok (head_bytes h, r)
   end.
 
-Definition fuel_for (b : bytes) : nat := 2 * length b + 2.
+Definition fuel_for (b : bytes) : nat := 3 * length b + 4.
 
 (* ---- struct field selection: decodeArrayToStruct's delete-while-ranging, at most one omitted ---- *)
 Fixpoint drop_one (seen : bool) (fs : list (bool * ty)) : outcome (list (bool * ty)) :=
